@@ -333,7 +333,7 @@ Hypothesis Hge : gunzip (plain []) = GzOk [].     (* an empty file reads as empt
 Definition crash_ok (old r : outcome (resval B)) : Prop :=
   r = old \/
   (exists pre suf, r = Ok (VData (plain pre)) /\ buf = pre ++ suf) \/
-  r = AccessErr \/ r = Crash EOFError \/ r = Crash ZlibError.
+  r = AccessErr.
 
 Theorem left_reader : forall t t1 m t', Inv t m -> Inv t1 m -> left_state t t1 m t' ->
   crash_ok (to_model B plain (spec_fetch m n)) (fst (run t' (fetch_prog n))).
@@ -349,9 +349,9 @@ Proof.
         -- destruct (Htg _ _ _ Eg) as [-> | ->].
            ++ right. left. exists buf, []. rewrite app_nil_r. split; reflexivity.
            ++ right. left. exists [], buf. split; reflexivity.
-        -- right. right. left. reflexivity.
-        -- right. right. right. left. reflexivity.
-        -- right. right. right. right. reflexivity.
+        -- right. right. reflexivity.
+        -- right. right. reflexivity.
+        -- right. right. reflexivity.
       * rewrite Hgz. right. left. exists buf, []. rewrite app_nil_r. split; reflexivity.
     + destruct HX' as [-> | [-> | ->]].
       * right. left. exists [], buf. split; reflexivity.
@@ -400,11 +400,11 @@ Lemma overwrite_not_atomic_refuted :
   r = AccessErr /\ g_fetch false t2 = Ok (VData (BCut 0 (BPlain [2; 3]))).
 Proof. vm_compute. repeat split. Qed.
 
-(* a .gz left truncated (by a failed or an interrupted write) makes the next
-   fetch raise EOFError, which is not a data-access / I/O error *)
-Lemma truncated_gz_refuted :
+(* a .gz left truncated (by a failed or an interrupted write) is reported by
+   the next fetch as a data-access error *)
+Lemma truncated_gz_detected :
   let '(r, t2) := run_fault blob (BPlain []) (BCut 2) 2 ENOSPC g_tree (g_store true [2; 3] false) in
-  r = AccessErr /\ g_fetch true t2 = Crash EOFError.
+  r = AccessErr /\ g_fetch true t2 = AccessErr.
 Proof. vm_compute. split; reflexivity. Qed.
 
 (* an interruption right after the .gz file was created leaves an empty file,
